@@ -345,7 +345,7 @@ theorem nc_wsDrop {w0 w : World} (c : Nat) (h : NC w0 w) : NC w0 (wsDrop w c) :=
   try dsimp only
   split
   · nc_auto
-  · split <;> nc_auto
+  · split <;> (try split) <;> nc_auto
 
 theorem nc_appClose {w0 w : World} (sid : Nat) (discard : Bool) (h : NC w0 w) : NC w0 (appClose w sid discard) := by
   unfold appClose
